@@ -56,7 +56,7 @@ def check(ctx):
     from .c03 import ledger_shape
     o = ctx.ob('ledger_day_key', 'R10',
                "ledger rows are stored under midnight(day) and every query compares that key (a raw-date comparison makes booked "
-               "days look free for a mid-day release date)", floor=3)
+               "days look free for a mid-day release date)", floor=2)
     ctx.guarded(o, lambda o: ledger_shape(ctx, o))
 
     o = ctx.ob('linked_tasks_get_project_bound', 'R8',
